@@ -346,10 +346,10 @@ class File:
         if not isinstance(obj, Section):
             raise TypeError("Object to be copied is not a Section")
 
-        if obj.parent is not None:
-            src = "{}/{}".format("sections", obj.name)
-        else:
-            src = "{}/{}".format("metadata", obj.name)
+        # copy the HDF5 group of the section itself: looking the source up by
+        # name below its parent finds the wrong section (or none) when another
+        # section has the same id, e.g. a copy made with keep_id=True
+        src = obj._h5group.group
         clsname = "metadata"
         if not name:
             name = str(obj.name)
@@ -357,9 +357,9 @@ class File:
             raise NameError("Name already exist. Possible solution is to "
                             "provide a new name when copying destination "
                             "is the same as the source parent")
-        obj._parent._h5group.copy(source=src, dest=self._h5group,
-                                  name=name, cls=clsname,
-                                  shallow=not children, keep_id=keep_id)
+        self._h5group.copy(source=src, dest=self._h5group,
+                           name=name, cls=clsname,
+                           shallow=not children, keep_id=keep_id)
 
         if not children:
             for prop in obj.props:
